@@ -442,4 +442,16 @@ set_option maxRecDepth 100000 in
 example : Event.start "net1" "1" "2a1" [("vm1", ":/pool/shared net1:/pool/swarm")] 1 ∈
     (resume gTwo sTwo1 0 ⟨some "PASS", 1⟩ 100).2 := by decide +kernel
 
+set_option maxRecDepth 100000 in
+example := start_locations_exact_preparsed gTwo (by decide) 3 [] sTwo1
+  (.step _ 0 ⟨none, 0⟩ 100 .init (by decide) (by decide)) 0 ⟨some "PASS", 1⟩ 100 "net1" "1" "2a1"
+  [("vm1", ":/pool/shared net1:/pool/swarm")] 1 (by decide +kernel)
+
+set_option maxRecDepth 100000 in
+example := start_locations_exact gTwo (by decide) 3 [] sTwo1
+  (.step _ 0 ⟨none, 0⟩ 100 (.init []) (by decide) (by decide)) 0 ⟨some "PASS", 1⟩ 100 "net1" "1" "2a1"
+  [("vm1", ":/pool/shared net1:/pool/swarm")] 1 (by decide +kernel)
+
+example := locations_invariant gTwo (by decide) 3 [] sTwo1 (.step _ 0 ⟨none, 0⟩ 100 (.init []) (by decide) (by decide)) 2 "vm1"
+
 end I2N.Props.C08
